@@ -143,14 +143,28 @@ class OksCaller:
         self.coco = coco
         self.colwise = False
         self.n = 0
+        self.shared = {}  # one array object per distinct per-node stddev / per-gt scale, reused by every call of the case
+
+    def shared_array(self, values):
+        """Callers hold per-node constants (e.g. the COCO sigmas) in ONE array and hand it to every
+        call; the case does the same, so a call that modifies its argument shows up in the laws."""
+        key = tuple(values)
+        if key not in self.shared:
+            self.shared[key] = np.array(values, dtype=np.float64)
+        return self.shared[key]
+
+    def check_arguments_untouched(self):
+        for key, a in self.shared.items():
+            if a.shape != (len(key),) or not (a == np.array(key, dtype=np.float64)).all():
+                self.res.fail("oks:argument-modified", f"array passed as stddev/scale was {list(key)} and is {a.tolist()} after {self.n} calls")
 
     def __call__(self, gt, pr, stddev, scale):
         from sleap_nn.evaluation import compute_oks
 
         def kw():
             return dict(
-                stddev=(stddev if np.isscalar(stddev) else np.array(stddev, dtype=np.float64)),
-                scale=(scale if (scale is None or np.isscalar(scale)) else np.array(scale, dtype=np.float64)),
+                stddev=(stddev if np.isscalar(stddev) else self.shared_array(stddev)),
+                scale=(scale if (scale is None or np.isscalar(scale)) else self.shared_array(scale)),
                 use_cocoeval=self.coco,
             )
 
@@ -230,6 +244,7 @@ def evaluate_oks(case):
 
     def done():
         res.n_evals = max(1, call.n)
+        call.check_arguments_untouched()
         return res
 
     M = call(gt, pr, stddev, scale)
@@ -532,6 +547,9 @@ def evaluate_match(case):
     prs = arr([p["pts"] for p in case["pr"]], 2) if case["pr"] else np.zeros((0, n_nodes, 2))
     scores = [float(p["score"]) for p in case["pr"]]
     thr, stddev, scale = case["threshold"], case["stddev"], case["scale"]
+    stddev_src = stddev
+    if not np.isscalar(stddev):
+        stddev = np.array(stddev_src, dtype=np.float64)  # ONE per-node array for every call of the case, as callers hold it
     inst_gt = [sio.Instance.from_numpy(points_data=g, skeleton=skel) for g in gts]
     inst_pr = [
         sio.PredictedInstance.from_numpy(points_data=p, skeleton=skel, score=s, point_scores=np.ones(n_nodes))
@@ -546,6 +564,7 @@ def evaluate_match(case):
         f"match:n_pr={n_pr}",
         "match:thr=0" if thr == 0 else "match:thr>0",
         "match:tied-scores" if len(set(scores)) < len(scores) else "match:distinct-scores",
+        "match:stddev=scalar" if np.isscalar(stddev) else "match:stddev=per-node",
     )
     if n_gt and np.isnan(gts).all(axis=(1, 2)).any():
         res.cls("match:gt-all-nan")
@@ -591,9 +610,11 @@ def evaluate_match(case):
         direct = runner.guarded(res, "match-oks", compute_oks, gts[a : a + 1].copy(), prs[b : b + 1].copy(), stddev=stddev, scale=scale)
         if direct is not runner.FAILED and not abs(float(np.asarray(direct)[0, 0]) - o) <= 1e-12:
             res.fail("match:pair-oks-mismatch", f"pair (gt {a}, pred {b}) reports {o!r}, compute_oks gives {float(np.asarray(direct)[0, 0])!r}")
-        ref, _ = ref_oks(gts[a : a + 1], prs[b : b + 1], stddev, scale, True)
+        ref, _ = ref_oks(gts[a : a + 1], prs[b : b + 1], stddev_src, scale, True)
         if not abs(float(ref[0, 0]) - o) <= 1e-9:
             res.fail("match:pair-oks-reference", f"pair (gt {a}, pred {b}) reports {o!r}, reference {float(ref[0, 0])!r}")
+    if not np.isscalar(stddev) and not (stddev == np.array(stddev_src, dtype=np.float64)).all():
+        res.fail("match:argument-modified", f"per-node stddev array was {list(stddev_src)} and is {stddev.tolist()} after match_instances")
     res.nontrivial = n_gt >= 2 and n_pr >= 2 and len(pairs) >= 1
     res.cls(f"match:pairs={min(len(pairs), 3)}{'+' if len(pairs) >= 3 else ''}", "match:has-fn" if fn else "match:no-fn")
     return res
@@ -655,7 +676,10 @@ def match_strategy():
             score = draw(st.one_of(st.sampled_from([0.0, 0.25, 0.5, 0.5, 0.75, 1.0]), st.floats(0.0, 1.0, allow_nan=False)))
             pr.append({"pts": [p if m else None for p, m in zip(pose, mask)], "score": score})
         thr = draw(st.one_of(st.sampled_from([0, 0, 0, 0.1, 0.5, 0.9]), st.floats(0.0, 0.9, allow_nan=False)))
-        stddev = draw(st.sampled_from([0.025, 0.025, 0.072, 0.2]))
+        if draw(st.integers(0, 2)) == 0:
+            stddev = draw(st.lists(st.sampled_from([0.025, 0.035, 0.072, 0.107, 0.2]), min_size=n_nodes, max_size=n_nodes))
+        else:
+            stddev = draw(st.sampled_from([0.025, 0.025, 0.072, 0.2]))
         scale = draw(st.sampled_from([None, None, None, 100.0, 1e4]))
         return {"kind": kind, "n_nodes": n_nodes, "gt": gt, "pr": pr, "threshold": thr, "stddev": stddev, "scale": scale}
 
